@@ -240,7 +240,9 @@ def run_scan(rec, sh, tier, seed):
                 n_hits += len(ref)
                 n_last += sum(1 for k in ref if k[3] == L)
                 # other accepted input types describe the same set: numpy array, int8 tensor, float64 tensor
-                for alt_name, Xalt in (("numpy", X.numpy()), ("int8", X.to(torch.int8)), ("float64", X.double())):
+                bigX = torch.zeros(X.shape[0], 4, 2 * L)
+                bigX[:, :, ::2] = X
+                for alt_name, Xalt in (("numpy", X.numpy()), ("int8", X.to(torch.int8)), ("float64", X.double()), ("strided_view", bigX[:, :, ::2])):
                     if (thr, bs) != (thrs[0], 0.1) and alt_name != "numpy":
                         continue
                     st, da = call(fimo, md, Xalt, bin_size=bs, threshold=thr, reverse_complement=rc)
@@ -466,6 +468,14 @@ def run_fasta(rec, tier, seed):
                         g1, dup1 = df_to_hits(d1, names) if st == "ok" else (None, 0)
                         if g1 is None or set(g1) != set(got):
                             rec.violation("fimo:dim1_differs", case)
+                        # a non-default alphabet order for the FASTA characters, with the PWM rows permuted accordingly, describes the same hits
+                        if not rc:
+                            perm = [3, 2, 1, 0]            # alphabet T, G, C, A
+                            md2 = {n: p[perm] for n, p in md.items()}
+                            st, d2 = call(fimo, md2, fa, threshold=thr, reverse_complement=False, alphabet=["T", "G", "C", "A"])
+                            g2, dup2 = df_to_hits(d2, names) if st == "ok" else (None, 0)
+                            if g2 is None or set(g2) != set(got):
+                                rec.violation("fimo:custom_alphabet_differs", case, observed=d2 if st != "ok" else len(g2))
                         rec.observe(fi, mi, thr, rc, sorted(ref)[:5])
         rec.sample(dict(kind="fasta", files=FASTA_SETS))
     finally:
